@@ -130,6 +130,7 @@ type out struct {
 	ncbOps   map[*Expr]bool // binary nodes whose operator must not be preceded by a comment (known defect K7)
 	noCmtIn  map[*Expr]bool // unary nodes inside whose operand no comment is placed (known defect K7)
 	suppress int            // > 0: no comments
+	exclude  func(class string)
 }
 
 func newOut(t *rapid.T, noise int, comments bool) *out {
@@ -321,6 +322,16 @@ func (o *out) strLit(v string, tq bool) {
 // renderExpr writes an expression; required parentheses are derived from the tree.
 func (o *out) expr(e *Expr) {
 	for i := 0; i < e.P; i++ {
+		if e.K == "re" {
+			// K10: a comment before a parenthesised regex is printed directly before the bare regex,
+			// where the lexer takes the regex line as a continuation of the comment
+			if o.comments && o.exclude != nil && !off(classK10) {
+				o.exclude(classK10)
+			}
+			o.emit(tk{s: "(", cls: "lparen", ncb: !off(classK10)})
+			o.label("lit:regex-parenthesised")
+			continue
+		}
 		o.lparen()
 		o.label("lambda:redundant-parens")
 	}
@@ -457,6 +468,7 @@ type eg struct {
 const (
 	classK1 = "K1 JSON of a lambda: function call (the function name is not serialised)"
 	classK4 = "K4 JSON of a lambda: integer literal beyond 2^53 (decoded through float64)"
+	classK10 = "K10 comment directly before a parenthesised regex literal (the formatter drops the parentheses; the regex line is then lexed as part of the comment)"
 	classK5 = "K5 format of an AST built without the parser: string ending in a backslash (needs triple quotes, StringNode.TripleQuotes unset)"
 	classK2 = "K2 format of an AST built without the parser: regex literal (RegexNode.Literal unset prints //)"
 	classT3 = "T3 pipeline/tick: a lambda var referenced inside a lambda is rendered as a nested 'lambda:' (unparseable)"
@@ -464,7 +476,7 @@ const (
 )
 
 func (g *eg) zero(e *Expr, repl string) *Expr {
-	if !g.nonzero {
+	if !g.nonzero || off(classT1) {
 		return e
 	}
 	z := false
@@ -491,11 +503,15 @@ func (g *eg) zero(e *Expr, repl string) *Expr {
 }
 
 func (g *eg) filter(e *Expr) *Expr {
-	if g.noCalls && e.K == "call" {
+	if g.noCalls && e.K == "call" && !off(classK1) {
 		if g.count != nil {
 			g.count(classK1)
 		}
 		return g.ref()
+	}
+	// redundant parentheses around a primary that is not an operator node: ("a"), (1), (f(x))
+	if !g.noParn && e.P == 0 && e.K != "bin" && e.K != "un" && e.K != "re" && rapid.IntRange(0, 19).Draw(g.t, "leafParens") == 0 {
+		e.P = 1
 	}
 	return e
 }
@@ -523,7 +539,7 @@ func (g *eg) pickVar(typ string) *Expr {
 	vs := g.vars[typ]
 	if len(vs) > 0 && rapid.IntRange(0, 2).Draw(g.t, "useVar") == 0 {
 		v := rapid.SampledFrom(vs).Draw(g.t, "var")
-		if class, bad := g.badVars[v]; bad {
+		if class, bad := g.badVars[v]; bad && !off(class) {
 			if g.count != nil {
 				g.count(class)
 			}
@@ -536,7 +552,7 @@ func (g *eg) pickVar(typ string) *Expr {
 
 func (g *eg) intLit() *Expr {
 	e := &Expr{K: "int", V: rapid.SampledFrom(intForms).Draw(g.t, "int")}
-	if g.noBigInt && isBigInt(e) {
+	if g.noBigInt && isBigInt(e) && !off(classK4) {
 		if g.count != nil {
 			g.count(classK4)
 		}
@@ -552,7 +568,7 @@ func (g *eg) durLit() *Expr {
 }
 func (g *eg) strLit() *Expr {
 	v := rapid.SampledFrom(strPool).Draw(g.t, "str")
-	if g.nonzero && strings.HasSuffix(v, `\`) {
+	if g.nonzero && strings.HasSuffix(v, `\`) && !off(classK5) {
 		if g.count != nil {
 			g.count(classK5)
 		}
@@ -581,7 +597,11 @@ func (g *eg) regex(allowEmpty bool) *Expr {
 		// outside the =~ !~ = contexts the lexer mis-steps on "/" + multi-byte rune (C05's lexer finding): the script is rejected
 		v = "a" + v
 	}
-	return &Expr{K: "re", V: v}
+	e := &Expr{K: "re", V: v}
+	if !g.noParn && v != "" && v[0] < 0x80 && rapid.IntRange(0, 7).Draw(g.t, "reParens") == 0 {
+		e.P = 1 // (/re/): legal, the formatter drops the parentheses
+	}
+	return e
 }
 
 func (g *eg) num0(d int) *Expr {
